@@ -101,7 +101,7 @@ impl<'a> Walker<'a> {
         if e.a == "relocate" {
             return false; // relocation is inserted by the walker itself
         }
-        if e.a != "destroy" && !obj.supports(&e.a) {
+        if e.a != "destroy" && (!obj.supports(&e.a) || !obj.supports_edge(&e.a, &e.i)) {
             return false;
         }
         if self.cfg.exclude.iter().any(|x| *x == e.a) {
@@ -788,6 +788,147 @@ impl<'a> Walker<'a> {
             }
         }
         json!({"constructible": true, "walks": walks, "completed": completed, "longest": longest})
+    }
+
+    // -------------------------------------------------------------------------------------------
+    // (d) hand-over to ANOTHER PROCESS (C14): a random walk is started here, then the complete memory image of the
+    // object is handed to a freshly executed copy of this driver (different code, stack, heap and mapping addresses
+    // under ASLR), which adopts the bytes at whatever address its own block has, must observe the same abstract state
+    // and continues the walk. An absolute address of THIS process that survived in the image (pointer into the block,
+    // function pointer, address of a static) is followed in the other process: divergence or fault there.
+
+    /// one random walk of `steps` steps from `live`; returns false when the walk ended in a divergence
+    fn walk_from(&mut self, live: &mut Live, path: &mut Vec<PStep>, steps: u64, rng: &mut Rng) -> bool {
+        let mut n = 0u64;
+        while n < steps {
+            let s = live.state;
+            if self.cfg.relocate && rng.chance(1, 6) {
+                match self.relocate(live, path) {
+                    Some(ps) => path.push(ps),
+                    None => return false,
+                }
+            }
+            let cands: Vec<usize> = (0..self.aut.out[s].len())
+                .filter(|g| self.aut.label(&self.aut.out[s][*g]).a != "destroy"
+                    && self.allowed(s, &self.aut.out[s][*g], false, true, live.obj.as_ref()))
+                .collect();
+            if cands.is_empty() {
+                break;
+            }
+            let g = *rng.pick(&cands);
+            if !self.step(live, g, path) {
+                return false;
+            }
+            path.push((s, g));
+            n += 1;
+        }
+        true
+    }
+
+    pub fn handoff(&mut self, walks: u64, steps: u64, seed: u64, file: &str, child_args: &[String]) -> Value {
+        let mut rng = Rng::new(seed);
+        let (mut handed, mut child_steps, mut child_crashes) = (0u64, 0u64, 0u64);
+        for w in 0..walks {
+            crate::crash::reset();
+            let Some(mut live) = self.fresh(&[]) else { return json!({"constructible": self.construct_failed.is_none()}) };
+            let mut path: Vec<PStep> = vec![];
+            let first = 1 + rng.below(steps.max(2) / 2 + 1);
+            if !self.walk_from(&mut live, &mut path, first, &mut rng) {
+                self.discard(live.obj);
+                continue;
+            }
+            self.stats.paths += 1;
+            let Some(images) = live.obj.image() else {
+                self.discard(live.obj);
+                return json!({"constructible": true, "handoff": "unsupported"});
+            };
+            let packed: Vec<u32> = path.iter().map(|(s, g)| crate::crash::pack(*s, *g)).collect();
+            std::fs::write(file, serde_json::to_vec(&json!({"state": live.state, "images": images, "path": packed})).unwrap()).unwrap();
+            // the elements now belong to the other process
+            self.discard(live.obj);
+            let out = std::process::Command::new(std::env::current_exe().unwrap())
+                .args(child_args)
+                .args(["--mode", "resume", "--resume-file", file, "--steps", &steps.to_string(), "--salt", &(seed ^ w).to_string()])
+                .output()
+                .expect("spawn of the second process failed");
+            handed += 1;
+            let rendered = self.render_path(&path);
+            let code = out.status.code();
+            let so = String::from_utf8_lossy(&out.stdout);
+            let se = String::from_utf8_lossy(&out.stderr);
+            if code == Some(0) {
+                let line = so.lines().rev().find(|l| l.starts_with('{')).unwrap_or("{}");
+                let v: Value = serde_json::from_str(line).unwrap_or(json!({}));
+                child_steps += v["steps"].as_u64().unwrap_or(0);
+                for d in v["divergences"].as_array().cloned().unwrap_or_default() {
+                    let class = format!("{}:other-process", d["class"].as_str().unwrap_or("?"));
+                    let e = self.divs.entry(class).or_default();
+                    e.count += d["count"].as_u64().unwrap_or(1);
+                    if e.example.is_null() {
+                        e.example = json!({"history_in_first_process": rendered, "in_second_process": d["example"]});
+                    }
+                }
+            } else {
+                // a fault (or abort) of the code under test in the second process is data
+                child_crashes += 1;
+                let crash = se.lines().find(|l| l.starts_with("CRASH")).unwrap_or("").to_string();
+                let class = format!("{}:crash:other-process", self.cfg.kind);
+                let e = self.divs.entry(class).or_default();
+                e.count += 1;
+                if e.example.is_null() {
+                    e.example = json!({"history_in_first_process": rendered, "packed": packed,
+                                       "second_process_exit": code, "second_process": crash,
+                                       "stderr_tail": se.chars().rev().take(300).collect::<String>().chars().rev().collect::<String>()});
+                }
+            }
+        }
+        let _ = std::fs::remove_file(file);
+        json!({"constructible": true, "walks": walks, "handed_over": handed, "steps_in_second_process": child_steps,
+               "faults_in_second_process": child_crashes})
+    }
+
+    /// second process: adopt the image, compare the observation with the model state, continue the walk
+    pub fn resume(&mut self, file: &str, steps: u64, seed: u64) -> Value {
+        let v: Value = serde_json::from_slice(&std::fs::read(file).expect("resume file")).expect("resume file json");
+        let state = v["state"].as_u64().unwrap() as usize;
+        let images: Vec<Vec<u8>> = v["images"].as_array().unwrap().iter()
+            .map(|a| a.as_array().unwrap().iter().map(|b| b.as_u64().unwrap() as u8).collect()).collect();
+        let mut path: Vec<PStep> = v["path"].as_array().unwrap().iter().map(|p| crate::crash::unpack(p.as_u64().unwrap() as u32)).collect();
+        crate::crash::reset();
+        for (s, g) in &path {
+            crate::crash::push(*s, *g);
+        }
+        let Some(mut live) = self.fresh(&[]) else { return json!({"constructible": false}) };
+        if !live.obj.adopt(&images) {
+            panic!("image does not fit the freshly constructed object (driver error)");
+        }
+        live.state = state;
+        let ov = catch_unwind(AssertUnwindSafe(|| live.obj.observe()));
+        match ov {
+            Ok(Ok(ov)) if ov == self.aut.states[state].ov => {}
+            Ok(Ok(ov)) => {
+                self.diverge(&path, None, "adopt", vec![json!({"ov": self.aut.states[state].ov})], json!({"ov": ov}), "state");
+                self.discard(live.obj);
+                return json!({"adopted": false});
+            }
+            Ok(Err(m)) => {
+                self.diverge(&path, None, "adopt", vec![], json!({"problem": m}), "obs");
+                self.discard(live.obj);
+                return json!({"adopted": false});
+            }
+            Err(p) => {
+                self.diverge(&path, None, "adopt", vec![], json!({"problem": crate::panic_text(&p)}), "panic");
+                self.discard(live.obj);
+                return json!({"adopted": false});
+            }
+        }
+        let mut rng = Rng::new(seed);
+        if self.walk_from(&mut live, &mut path, steps, &mut rng) {
+            self.drop_check(live, &path);
+        } else {
+            self.discard(live.obj);
+        }
+        json!({"adopted": true})
     }
 
     /// re-executes a packed path (replay of a reported divergence or crash), printing every step
